@@ -99,7 +99,12 @@ def _worker_main(argv: List[str]) -> int:
         shard = json.load(fh)
     reach = _start_reach()
     try:
-        if shard.get("__replay__"):
+        if shard.get("__replay__") and isinstance(shard.get("witness"), dict) and shard["witness"].get("__shard__"):
+            vs = mod.run_shard(shard["witness"]["__shard__"]).violations
+            res = Result()
+            res.evaluations = 1
+            res.violations.extend(vs)
+        elif shard.get("__replay__"):
             vs = mod.replay(shard["witness"])
             res = Result()
             res.evaluations = 1
@@ -262,7 +267,7 @@ def run_check(prop: str, tier: str, seed: int, replay_path: Optional[str] = None
     merged = Result()
     stderr_tails = []
     reach_all: set = set()
-    for o in outs:
+    for oi, o in enumerate(outs):
         reach_all.update(o.get("reach", []))
         merged.evaluations += o["evaluations"]
         merged.distinct.update(o["distinct"])
@@ -289,6 +294,8 @@ def run_check(prop: str, tier: str, seed: int, replay_path: Optional[str] = None
                         d.setdefault(kk, vv)
             else:
                 merged.extra.setdefault(k, val)
+        for v in o["violations"]:
+            v.setdefault("_shard", oi)
         merged.violations.extend(o["violations"])
 
     # anchors: the functions the property is anchored in must have been entered by the workload
@@ -314,7 +321,7 @@ def run_check(prop: str, tier: str, seed: int, replay_path: Optional[str] = None
     for v in merged.violations:
         key = json.dumps([v["sub"], v["sig"]])
         g = groups.setdefault(key, {"sub": v["sub"], "sig": v["sig"], "msg": v["msg"], "witness": v["witness"],
-                                    "count": 0})
+                                    "count": 0, "_shard": v.get("_shard")})
         g["count"] += v.get("count", 1)
     known_hit: Dict[str, dict] = {}
     unknown: List[dict] = []
@@ -336,6 +343,17 @@ def run_check(prop: str, tier: str, seed: int, replay_path: Optional[str] = None
     for g, out in zip(unknown[:12], conf_outs):
         same = [v for v in out["violations"] if v["sub"] == g["sub"]]
         if out["inconclusive"] or not same:
+            # the witness alone does not show it: the violation may depend on what happened EARLIER in the same process
+            # (a cache, a shared buffer).  Re-run the whole shard it came from in a fresh process; if the same signature
+            # comes back, the shard is the witness.
+            si = g.get("_shard")
+            if si is not None and 0 <= si < len(shards) and not shards[si].get("__replay__"):
+                again = run_worker(prop, shards[si], timeout, f"confirm-shard{si}")
+                if any(v["sub"] == g["sub"] and v["sig"] == g["sig"] for v in again["violations"]):
+                    g["witness"] = {"__shard__": shards[si], "case": g["witness"]}
+                    g["msg"] = "[needs the history of its shard] " + g["msg"]
+                    confirmed.append(g)
+                    continue
             flaky.append(g)
         else:
             confirmed.append(g)
